@@ -3,6 +3,7 @@ import DaskModel.Model.ArrayReduce
 import DaskModel.Model.BlockScan
 import DaskModel.Model.Percentile
 import DaskModel.Model.Masked
+import DaskModel.Model.RandomKeys
 open Dask
 
 namespace ReduceDriver
@@ -222,6 +223,39 @@ def hMaWhere : Handler := handler fun args =>
     pure (ofMs (Dask.Masked.maskedWhere c (← toMs? xs)))
   | _ => none
 
+/-! ### C28 -/
+open Dask.RandomKeys in
+/-- `(rngcalls (spawnKey…) nChildren (nblocks…))` ↦ `((((key…)…)…) nChildren')` -/
+def hRngCalls : Handler := handler fun args =>
+  match args with
+  | [key, n, nbs] => do
+    let key ← key.toNats?
+    let n ← n.toNat?
+    let nbs ← nbs.toNats?
+    let (rs, g) := runCalls ⟨0, key, n⟩ (nbs.map fun b => ⟨0, b, 0⟩)
+    pure (.list [.list (rs.map fun r => SExp.ofNatss (r.1.map (·.spawnKey))), SExp.ofNat g.nChildren])
+  | _ => none
+
+open Dask.RandomKeys in
+/-- `(rscalls pos (nblocks…))` ↦ window indices per call -/
+def hRsCalls : Handler := handler fun args =>
+  match args with
+  | [pos, nbs] => do
+    let pos ← pos.toNat?
+    let nbs ← nbs.toNats?
+    let (rs, s) := runCallsRS ⟨0, pos⟩ (nbs.map fun b => ⟨0, b, 0⟩)
+    pure (.list [SExp.ofNatss (rs.map fun r => r.map (·.2)), SExp.ofNat s.pos])
+  | _ => none
+
+/-- `(choiceguard replace nchunks)` ↦ `(ok n)` | `(raised)` -/
+def hChoiceGuard : Handler := handler fun args =>
+  match args with
+  | [r, n] => do
+    match Dask.RandomKeys.choiceGuard (← r.toBool?) (← n.toNat?) with
+    | some m => pure (.list [.sym "ok", SExp.ofNat m])
+    | none => pure (.list [.sym "raised"])
+  | _ => none
+
 end ReduceDriver
 
 def table : List (String × Handler) := [
@@ -230,6 +264,7 @@ def table : List (String × Handler) := [
   ("blsched", ReduceDriver.hBlSched), ("schedok", ReduceDriver.hSchedOk),
   ("mergepct", ReduceDriver.hMergePct),
   ("mareduce", ReduceDriver.hMaReduce), ("mazip", ReduceDriver.hMaZip), ("mascan", ReduceDriver.hMaScan),
-  ("mafilled", ReduceDriver.hMaFilled), ("mawhere", ReduceDriver.hMaWhere)]
+  ("mafilled", ReduceDriver.hMaFilled), ("mawhere", ReduceDriver.hMaWhere),
+  ("rngcalls", ReduceDriver.hRngCalls), ("rscalls", ReduceDriver.hRsCalls), ("choiceguard", ReduceDriver.hChoiceGuard)]
 
 def main : IO Unit := runDriver table
